@@ -52,11 +52,12 @@ RML_PARSING_QUERY = """
                         a ?triples_map_type .
         OPTIONAL {
             # logical_source is optional because it can be specified with file_path in config (see #119)
-            ?_source ?logical_source_type ?logical_source_value .
-            OPTIONAL {
-                ?logical_source_value sd:name ?logical_source_in_memory_value.
-                BIND(CONCAT("{",?logical_source_in_memory_value,"}") AS ?logical_source_value)
-            }
+            ?_source ?logical_source_type ?_logical_source_node .
+            OPTIONAL { ?_logical_source_node sd:name ?_logical_source_in_memory_value . }
+            # an in-memory source is named by the sd:name of the source node (a variable that is already bound cannot
+            # be the target of BIND)
+            BIND(IF(BOUND(?_logical_source_in_memory_value),
+                    CONCAT("{", ?_logical_source_in_memory_value, "}"), ?_logical_source_node) AS ?logical_source_value)
             FILTER ( ?logical_source_type IN ( rml:source, rml:tableName, rml:query ) ) .
         }
         OPTIONAL { ?_source rml:iterator ?iterator . }
